@@ -32,15 +32,19 @@ fn raw_spec() -> impl Strategy<Value = RawSpec> {
 		1u8..=4,
 		prop::collection::vec(any::<u16>(), 4),
 		prop::collection::vec((0u8..6, 0u8..6), 1..=6),
-		prop::collection::vec(
-			(
-				prop_oneof![5 => Just(0u8), 2 => Just(1u8), 2 => Just(2u8)],
-				prop_oneof![3 => 1u64..10, 2 => 1u64..5_000_000, 1 => (1u64 << 39)..(1u64 << 40), 1 => Just((1u64 << 40) - 1)],
-				0u8..16,
-				1u16..1000,
-			),
-			1..=3,
-		),
+		{
+			let kernel = || {
+				(
+					prop_oneof![5 => Just(0u8), 2 => Just(1u8), 2 => Just(2u8)],
+					prop_oneof![3 => 1u64..10, 2 => 1u64..5_000_000, 1 => (1u64 << 39)..(1u64 << 40), 1 => Just((1u64 << 40) - 1)],
+					0u8..16,
+					1u16..1000,
+				)
+			};
+			// mostly 1..3 kernels; now and then as many as a transaction can carry (65..67 with one output):
+			// more than any batch size a signature / sum routine might work in
+			prop_oneof![12 => prop::collection::vec(kernel(), 1..=3), 1 => prop::collection::vec(kernel(), 65..=67)]
+		},
 		any::<bool>(),
 		prop::collection::vec(any::<u16>(), 4),
 	)
@@ -67,6 +71,10 @@ fn resolve_spec(r: &RawSpec) -> TxSpec {
 			o.key += 6;
 		}
 		outputs.push(o);
+	}
+	if r.kernels.len() > 3 {
+		// many kernels: one output so that the transaction stays within the weight limit
+		outputs.truncate(1);
 	}
 	let kernels: Vec<KernelSpec> = r
 		.kernels
@@ -131,6 +139,9 @@ pub fn tx_case(ctx: &Ctx, r: &RawSpec, counting: bool) -> PResult {
 		fail!("harness:unbalanced-spec", "generator produced an unbalanced spec {:?}", spec);
 	}
 	let (tx, _) = assemble(&spec);
+	if counting && spec.kernels.len() > 64 {
+		ev.class("tx_with_more_than_64_kernels");
+	}
 	let base = tx.validate(Weighting::AsTransaction);
 	if let Err(e) = &base {
 		// over the test block weight limit is a legitimate refusal; anything else is not
